@@ -120,9 +120,10 @@ pub unsafe fn lg_share(b: NonNull<[u8]>, d: BufferDirection, ap: bool) -> PhysAd
     lg_paddr(i)
 }
 pub unsafe fn lg_unshare(p: PhysAddr, b: NonNull<[u8]>, d: BufferDirection, ap: bool) {
-    let f = lg_find_live(p);
-    assert!(f.is_some(), "C04/C07: unshare of a device address that is not a live share (double or foreign unshare)");
-    let i = f.unwrap();
+    let known = p >= LG_SALT && (p - LG_SALT) % 0x1_0000 == 0 && ((p - LG_SALT) / 0x1_0000) < LG_N as u64 && ((p - LG_SALT) / 0x1_0000) < MAXSH as u64;
+    assert!(known, "C04/C07: unshare of a device address that share() never returned");
+    let i = ((p - LG_SALT) / 0x1_0000) as usize;
+    assert!(LG[i].live, "C04/C07: buffer unshared twice (its device address was already unshared)");
     assert!(LG[i].ptr == b.as_ptr() as *mut u8 as usize, "C04: unshare buffer pointer differs from the one shared");
     assert!(LG[i].len == b.len(), "C04: unshare buffer length differs from the one shared");
     assert!(LG[i].dir == dir_code(d), "C04: unshare direction differs from share direction");
